@@ -786,6 +786,13 @@ type unexported struct {
 	b string
 }
 
+// selfRefIface: an interface holding a pointer to itself (F25)
+func selfRefIface() interface{} {
+	var v interface{}
+	v = &v
+	return v
+}
+
 func deepSlice(n int, empty bool) interface{} {
 	rt := reflect.TypeOf(int(0))
 	rv := reflect.ValueOf(int(1))
@@ -877,6 +884,8 @@ func c15ErrorCases() []errCase {
 		{"nesting-limit", "150 nested slices", deepSlice(150, false), true, true},
 		{"nesting-limit", "150 nested slice types, empty at the top", deepSlice(150, true), true, true},
 		{"nesting-limit", "cyclic value p.Next = p", cy, true, true},
+		{"nesting-limit", "self-referential interface x = &x", selfRefIface(), true, true},
+		{"nesting-limit", "self-referential interface inside a slice", []interface{}{selfRefIface()}, true, true},
 	}
 }
 
@@ -964,9 +973,9 @@ func c15Errors(c *Ctx) {
 // environment, so a string-keyed map is refused only when it is nil.
 func c15EnvMustFail(ec errCase) bool {
 	rv := reflect.ValueOf(ec.v)
-	for rv.IsValid() && (rv.Kind() == reflect.Pointer || rv.Kind() == reflect.Interface) {
-		if rv.IsNil() {
-			return true
+	for n := 0; rv.IsValid() && (rv.Kind() == reflect.Pointer || rv.Kind() == reflect.Interface); n++ {
+		if rv.IsNil() || n > 200 {
+			return true // nil at the end, or a chain that leads back to itself
 		}
 		rv = rv.Elem()
 	}
